@@ -515,6 +515,13 @@ func (x *scen) forge(h int64) *types.Block {
 	return b
 }
 
+// extraOf: block h with Header.Extra changed - the header hash does not cover it, the part set does
+func (x *scen) extraOf(h int64) *types.Block {
+	b := clone(x.blocks[h])
+	b.Header.Extra = []byte("another part set, the same header hash")
+	return b
+}
+
 // minorityCommit: precommits for `id` at height h by a set that is not more than 2/3
 func (x *scen) minorityCommit(h int64, id types.BlockID, R *vh.Rng) *types.Commit {
 	n := len(x.powers)
@@ -651,6 +658,29 @@ func (x *scen) variant(rh int64, kind string, R *vh.Rng) *types.Block {
 	case "lc-extra":
 		b.LastCommit.Precommits = append(b.LastCommit.Precommits, nil)
 		rehash()
+	case "extra": // same header hash (Header.Extra is not hashed), another part set
+		b = x.extraOf(rh)
+	case "lc-relabel": // child of the "extra" variant of rh-1: the first precommit genuine, the others name the
+		// other part set of the same header hash and keep the signatures they were given for the genuine one
+		if rh >= 2 && x.blocks[rh-1] != nil {
+			id := idOf(x.extraOf(rh - 1))
+			b.Header.LastBlockID = id
+			b.LastCommit.BlockID = id
+			first := true
+			for j, v := range b.LastCommit.Precommits {
+				if v == nil {
+					continue
+				}
+				if first {
+					first = false
+					continue
+				}
+				c := *v
+				c.BlockID = id
+				b.LastCommit.Precommits[j] = &c
+			}
+			b.Header.LastCommitHash = b.LastCommit.Hash()
+		}
 	case "nil-data":
 		b.Data = nil
 	case "nil-header":
@@ -948,7 +978,7 @@ func (x *scen) goOn() {
 }
 
 var kinds = []string{"txs", "txs-rehash", "time", "apphash", "valhash", "proposer", "lastblockid", "height+", "height-", "forge", "forge-child",
-	"lc-minority", "lc-nil", "lc-allnil", "lc-idx", "lc-addr", "lc-badsig", "lc-swap", "lc-round", "lc-other", "lc-extra", "nil-data", "nil-header"}
+	"lc-minority", "lc-nil", "lc-allnil", "lc-idx", "lc-addr", "lc-badsig", "lc-swap", "lc-round", "lc-other", "lc-extra", "nil-data", "nil-header", "extra", "lc-relabel"}
 
 func main() {
 	r := vh.Start()
@@ -1022,6 +1052,12 @@ func main() {
 		for k := 0; k < steps && !x.dead && x.pool.VerifHeight() < x.H; k++ {
 			ph := x.pool.VerifHeight()
 			switch c := R.Intn(100); {
+			case c < 6 && !honestOnly && ph+1 <= x.H:
+				// a coordinated lie: block ph with another part set under the same header hash, and a child whose
+				// commit relabels the genuine precommits to it
+				x.serve(ph, "extra", uint64(R.Intn(1<<30)), "holder")
+				x.serve(ph+1, "lc-relabel", uint64(R.Intn(1<<30)), "holder")
+				x.sync(nil)
 			case c < 55:
 				rh := ph + int64(R.Intn(3))
 				if rh > x.H {
